@@ -350,10 +350,8 @@ func TestVerifC04(t *testing.T) {
 	rapid.Check(t, func(t *rapid.T) {
 		var c c04Case
 		c.Spaces = rapid.IntRange(1, 3).Draw(t, "spaces")
-		n := rapid.IntRange(1, vlib.Scale(60, 300)).Draw(t, "nops")
-		for i := 0; i < n; i++ {
-			c.Ops = append(c.Ops, c04GenOp(t, c.Spaces))
-		}
+		spaces := c.Spaces
+		c.Ops = rapid.SliceOfN(rapid.Custom(func(t *rapid.T) c04Op { return c04GenOp(t, spaces) }), 1, vlib.Scale(60, 300)).Draw(t, "ops")
 		fail, rs := c04Run(c)
 		var labels []string
 		for name, on := range map[string]bool{"shared-upper-table": rs.sharedUpper, "remap": rs.remap, "unmap-then-map": rs.unmapThenMap, "inactive-space-op": rs.inactiveOp, "injected-alloc-failure-fired": rs.injectedFired} {
